@@ -250,10 +250,7 @@ impl MachineState {
             (HeapCellValueTag::Cons, ptr) => {
                 match ptr.get_tag() {
                     ArenaHeaderTag::Rational | ArenaHeaderTag::Integer => {
-                        // the constant index is keyed by cells, and the cell of a big
-                        // integer or rational is a pointer: equal numbers have different
-                        // cells. Try every clause, as for a variable; unification decides.
-                        v
+                        c
                     }
                     _ => {
                         IndexingCodePtr::Fail
